@@ -162,6 +162,34 @@ pub fn workload(seed: u64, shard: usize, of: usize, cases: usize, miri: bool) ->
             }
             bump("reader_buffer_changed_during_a_nested_translation", *clobbered.borrow());
         }
+        // 3e. the library used from several threads at once (each with its own reader and writer): parsers,
+        //     decoders and whatever statics or thread-locals they use may not interfere - same result on every
+        //     thread as on this one (and, under Miri, no data race)
+        if miri || n % 3 == 0 {
+            let mut base_out = Vec::new();
+            let base = guarded(|| xt::translate_reader(SchedReader::new(&input, Sched::Fixed(7)), Some(xt::Format::Yaml), to.xt(), &mut base_out)).class().to_string();
+            let results: Vec<(String, Vec<u8>)> = std::thread::scope(|sc| {
+                let hs: Vec<_> = (0..3usize)
+                    .map(|t| {
+                        let input = &input;
+                        sc.spawn(move || {
+                            let mut out = Vec::new();
+                            let sched = [Sched::Fixed(7), Sched::All, Sched::Fixed(1)][t].clone();
+                            let v = guarded(|| xt::translate_reader(SchedReader::new(input, sched.clone()), Some(xt::Format::Yaml), to.xt(), &mut out));
+                            (v.class().to_string(), out)
+                        })
+                    })
+                    .collect();
+                hs.into_iter().map(|h| h.join().unwrap_or_else(|_| ("thread panicked".into(), vec![]))).collect()
+            });
+            bump("concurrent_translations", results.len() as u64);
+            // (a failing run's partial output may depend on the read schedule: only verdicts and successful outputs are compared)
+            for (class, out) in &results {
+                if *class != base || (base == "ok" && *out != base_out) {
+                    bump("concurrent_translation_differs_from_the_single_threaded_one", 1);
+                }
+            }
+        }
         // (large boundary inputs: the event-by-event stages below add nothing)
         if input.len() > 30_000 {
             let _ = guarded_any(|| xt::verif::yaml_chunks(SchedReader::new(&input, Sched::All), 4).len());
@@ -455,6 +483,12 @@ pub fn run(ctx: &Ctx) -> i32 {
         }
     }
     for pre in ["", "miri_"] {
+        let n = g(&format!("{pre}concurrent_translation_differs_from_the_single_threaded_one"));
+        if n > 0 {
+            acc.violation(Violation { sig: "a translation running next to others on other threads ends differently than alone".into(), case: json!({"instrument": "threads", "prefix": pre}), observed: format!("{n} of the concurrent translations differ in verdict or output from the same translation on one thread"), expected: "translations on different threads do not interfere".into() });
+        }
+    }
+    for pre in ["", "miri_"] {
         let n = g(&format!("{pre}reader_buffer_changed_during_a_nested_translation"));
         if n > 0 {
             acc.violation(Violation { sig: "a reader's exclusively borrowed buffer changed under it while a nested translation ran".into(), case: json!({"instrument": "nesting reader", "prefix": pre}), observed: format!("{n} read() calls found other bytes in their buffer after running a second YAML translation on the same thread"), expected: "the buffer lent to read() is not shared with any other parser".into() });
@@ -468,10 +502,10 @@ pub fn run(ctx: &Ctx) -> i32 {
         acc.distinct(&i);
     }
     acc.sample(json!({"asan_shards": shards, "cases_per_shard": cases_per_shard, "miri_cases_per_shard": miri_cases, "example_shard_command": format!("{bin} workload --seed {} --shard 0 --of {shards} --cases {cases_per_shard}", ctx.seed)}));
-    let rule = format!("AddressSanitizer+LeakSanitizer: {} shards x {} corpus inputs (mixed corpus, UTF-16/32 re-encodings, every fifth one a ~45 KiB YAML text with multi-byte characters on every alignment around the 8/16/24/32 KiB read boundaries) each driven as YAML explicit and detected through the public API with read sizes 1..17 / random / whole, reader errors at sampled offsets, over-reporting readers (excess 1..64, first/second/third call) straight into the raw parser and the chunker via the hook and through the public API, readers that panic inside read() or in their destructor, safe readers that look at the buffer's old contents before filling it or report n bytes having stored n-1 (sound only if the buffer handed out is initialised memory; an uninitialised one is a Miri report), a reader that runs a second YAML translation on the same thread from inside read() and then checks that its buffer is unchanged, early drop of the parser after EVERY event count, chunker abandoned after one document, re-encoder surrogate/range boundary units; Miri: {} shards x {} seed inputs of the same workload; valgrind memcheck on the release binary in the thorough tier; conservation of Parser/Event new vs drop; distinct non-trivial = inputs driven", shards, cases_per_shard, shards, miri_cases);
+    let rule = format!("AddressSanitizer+LeakSanitizer: {} shards x {} corpus inputs (mixed corpus, UTF-16/32 re-encodings, every fifth one a ~45 KiB YAML text with multi-byte characters on every alignment around the 8/16/24/32 KiB read boundaries) each driven as YAML explicit and detected through the public API with read sizes 1..17 / random / whole, reader errors at sampled offsets, over-reporting readers (excess 1..64, first/second/third call) straight into the raw parser and the chunker via the hook and through the public API, readers that panic inside read() or in their destructor, safe readers that look at the buffer's old contents before filling it or report n bytes having stored n-1 (sound only if the buffer handed out is initialised memory; an uninitialised one is a Miri report), a reader that runs a second YAML translation on the same thread from inside read() and then checks that its buffer is unchanged, the same translation on three threads at once (equal results; under Miri also free of data races), early drop of the parser after EVERY event count, chunker abandoned after one document, re-encoder surrogate/range boundary units; Miri: {} shards x {} seed inputs of the same workload; valgrind memcheck on the release binary in the thorough tier; conservation of Parser/Event new vs drop; distinct non-trivial = inputs driven", shards, cases_per_shard, shards, miri_cases);
     let mut extra = serde_json::Map::new();
     extra.insert("explanation".into(), json!("sanitizer verdict: zero AddressSanitizer/LeakSanitizer/Miri reports over the executed workload; a clean run says nothing about paths the workload did not reach"));
-    let mut f = Finish { ctx, level: "other", rule, assumptions: vec!["red-zone tools miss intra-object overflows; Miri covers part of that gap on the smaller workload".into(), "panics are an allowed outcome for contract-violating readers and are counted".into()], extra, exhaustive: false, min_distinct: 100, must_reach: vec![("leak_detector_selftest_fired".into(), 1), ("asan_shards_clean".into(), shards as u64), ("miri_shards_clean".into(), shards as u64), ("hit_READ_HANDLER_OVER_REPORT".into(), 10), ("hit_READ_HANDLER_ERROR".into(), 10), ("early_drop_points".into(), 1000), ("inputs_boundary_straddling".into(), 50), ("readers_panicking_in_drop".into(), 100), ("lazy_reader_api_returned".into(), 100), ("nesting_reader_api_returned".into(), 100)] };
+    let mut f = Finish { ctx, level: "other", rule, assumptions: vec!["red-zone tools miss intra-object overflows; Miri covers part of that gap on the smaller workload".into(), "panics are an allowed outcome for contract-violating readers and are counted".into()], extra, exhaustive: false, min_distinct: 100, must_reach: vec![("leak_detector_selftest_fired".into(), 1), ("asan_shards_clean".into(), shards as u64), ("miri_shards_clean".into(), shards as u64), ("hit_READ_HANDLER_OVER_REPORT".into(), 10), ("hit_READ_HANDLER_ERROR".into(), 10), ("early_drop_points".into(), 1000), ("inputs_boundary_straddling".into(), 50), ("readers_panicking_in_drop".into(), 100), ("lazy_reader_api_returned".into(), 100), ("nesting_reader_api_returned".into(), 100), ("concurrent_translations".into(), 300)] };
     if !acc.violations.is_empty() {
         f.must_reach.clear();
     }
